@@ -23,7 +23,8 @@ RULE = (
     "language {each language the country ships a template for, none} x filter {none, from, to, from+to} (136 tuples) is "
     "run through the real CLI; inputs rotate over shapes: single asset, multi asset, sparse years, an asset fully sold, an "
     "asset with income only, all 14 transaction types; windows are drawn mid-year, on event dates, right after an asset's "
-    "last event of a year, and empty. Oracle: exit 0, no traceback, exactly the files <prefix><method|mixed>_<report>.ods "
+    "last event of a year, empty, before an asset's first acquisition, and between transactions whose own-date order is the "
+    "reverse of their instant order (mixed UTC offsets around new year); every tuple draws its own window. Oracle: exit 0, no traceback, exactly the files <prefix><method|mixed>_<report>.ods "
     "of the country's generators. Non-trivial = a tuple with a date filter or a non-default method/language; distinct = "
     "hash of (input, tuple)"
 )
@@ -32,10 +33,10 @@ ASSUMPTIONS = [
     "KF2 (rp2_jp without -g: default language ja has no templates) and KF3 (rp2_jp refuses -f together with -t) are recorded findings, keyed by country, options and error message",
 ]
 SETTINGS: Dict[str, Dict[str, Any]] = {
-    "quick": {"inputs": 2, "budget_s": 60, "minimums": {"cli_runs": 250, "nontrivial": 200}, "required_tags": {"tag_country": list(COUNTRIES), "tag_filter": ["none", "from", "to", "from+to"]}},
-    "thorough": {"inputs": 30, "budget_s": 420, "minimums": {"cli_runs": 3500, "nontrivial": 3000}, "required_tags": {"tag_country": list(COUNTRIES), "tag_filter": ["none", "from", "to", "from+to"]}},
+    "quick": {"inputs": 3, "budget_s": 75, "minimums": {"cli_runs": 380, "nontrivial": 300, "inverted_cut_runs": 20}, "required_tags": {"tag_country": list(COUNTRIES), "tag_filter": ["none", "from", "to", "from+to"]}},
+    "thorough": {"inputs": 32, "budget_s": 480, "minimums": {"cli_runs": 3800, "nontrivial": 3200, "inverted_cut_runs": 200}, "required_tags": {"tag_country": list(COUNTRIES), "tag_filter": ["none", "from", "to", "from+to"]}},
 }
-SHAPES = ["all-types", "multi-asset-sparse", "fully-sold+income-only", "single-asset", "multi-asset", "sparse-years"]
+SHAPES = ["all-types", "inverted-dates", "multi-asset-sparse", "fully-sold+income-only", "single-asset", "multi-asset", "sparse-years", "mixed-offsets"]
 
 
 def matrix() -> List[Tuple[str, Optional[str], Optional[str], str]]:
@@ -67,6 +68,13 @@ def all_types_history(rng: Any, asset: str = "AAA") -> Dict[str, Any]:
 def shaped_input(rng: Any, shape: str) -> Dict[str, Dict[str, Any]]:
     if shape == "all-types":
         return {"AAA": all_types_history(rng)}
+    if shape == "inverted-dates":
+        # events around new year / a day boundary in far-apart UTC offsets: own-date order is the reverse of instant order
+        first, _ = families.inverted_dates(rng, "AAA", at_new_year=True)
+        second, _ = families.inverted_dates(rng, "BBB", at_new_year=rng.random() < 0.5)
+        return {"AAA": first, "BBB": second}
+    if shape == "mixed-offsets":
+        return cli_histories(rng, 2, cli_profile(mixed_tz=True, gap_style=rng.choice(("short", "boundary", "mixed")), tie_prob=0.2, max_events=14, min_events=6))
     if shape == "single-asset":
         return cli_histories(rng, 1)
     if shape == "multi-asset":
@@ -97,6 +105,19 @@ def windows_for(rng: Any, hists: Dict[str, Dict[str, Any]]) -> Dict[str, Tuple[O
     after_last = [d + timedelta(days=1) for d in last_of_year.values() if (d + timedelta(days=1)).year == d.year]
     pool_from = after_last + [date(dates[len(dates) // 2].year, 7, 1), rng.choice(dates), dates[-1] + timedelta(days=40)]
     pool_to = [date(dates[len(dates) // 2].year, 7, 1), rng.choice(dates), dates[0] - timedelta(days=10), dates[-1]]
+    # a to-date before some asset's first acquisition but after another asset's
+    firsts = sorted(min(parse_ts(r["ts"]).date() for r in h["rows"]) for h in hists.values())
+    if len(firsts) > 1 and firsts[0] < firsts[-1]:
+        pool_to.append(firsts[-1] - timedelta(days=1))
+    # cuts between two transactions whose own-date order is the reverse of their instant order (mixed UTC offsets)
+    from datetime import timezone as _tz
+
+    for h in hists.values():
+        ordered = sorted((parse_ts(r["ts"]) for r in h["rows"]), key=lambda t: t.astimezone(_tz.utc))
+        for a, b in zip(ordered, ordered[1:]):
+            if a.date() > b.date():
+                pool_to += [b.date(), b.date()]
+                pool_from += [a.date(), a.date()]
     f = rng.choice(pool_from)
     t = rng.choice(pool_to)
     f2 = rng.choice(pool_from)
@@ -116,6 +137,26 @@ def classify(country: str, language: Optional[str], filt: str, res: Any) -> str:
     if country == "jp" and filt == "from+to" and "To and From Dates can not be specified for the JP tax report" in text:
         return "KF3"
     return ""
+
+
+def _inverted_cut(hists: Dict[str, Any], window: Tuple[Optional[str], Optional[str]]) -> bool:
+    """True when a bound of the window falls between two transactions whose own-date order is the reverse of their instant order."""
+    from datetime import timezone as _tz
+
+    for bound, is_to in ((window[0], False), (window[1], True)):
+        if not bound:
+            continue
+        day = date.fromisoformat(bound)
+        for h in hists.values():
+            ordered = sorted((parse_ts(r["ts"]) for r in h["rows"]), key=lambda t: t.astimezone(_tz.utc))
+            seen_after = False
+            for t in ordered:
+                inside = t.date() <= day if is_to else t.date() < day
+                if not inside:
+                    seen_after = True
+                elif seen_after:
+                    return True
+    return False
 
 
 def _run_tuple(ctx: Any, ws: Workspace, hists: Dict[str, Any], shape: str, tup: Tuple[str, Optional[str], Optional[str], str], window: Tuple[Optional[str], Optional[str]], prefix: str, input_seed: Any) -> None:
@@ -138,6 +179,8 @@ def _run_tuple(ctx: Any, ws: Workspace, hists: Dict[str, Any], shape: str, tup: 
     ctx.tag("tag_filter", filt)
     ctx.tag("tag_shape", shape)
     case = {"shape": shape, "input_seed": input_seed, "hists": hists, "tuple": list(tup), "window": list(window), "prefix": prefix}
+    if _inverted_cut(hists, window):
+        ctx.count("inverted_cut_runs")
     if filt != "none" or method not in (None, "fifo") or language is not None:
         ctx.distinct("nontrivial", {"i": input_seed, "t": list(tup)})
     problems: List[Tuple[str, Dict[str, Any]]] = []
@@ -186,6 +229,9 @@ def run_shard(ctx: Any) -> None:
             tup = tuples[k]
             prefix = "pfx_" if (i + k) % 7 == 0 else ""
             assert ws is not None
+            # every tuple draws its own window (mid-year, on event dates, after an asset's last event of a year, empty,
+            # before an asset's first acquisition, between own dates whose order is the reverse of the instants')
+            windows = windows_for(ctx.rng("window", i, k), hists)
             _run_tuple(ctx, ws, hists, shape, tup, windows[tup[3]], prefix, i)
             # keep the scratch directory small
             for name in os.listdir(ws.root):
@@ -233,4 +279,5 @@ def coverage(merged: Dict[str, Any], tier: str) -> Dict[str, Any]:
         "exhaustive_over_option_matrix_per_input": c.get("cli_runs", 0) >= len(matrix()) * SETTINGS[tier]["inputs"],
         "events_checked": {"cli_runs": c.get("cli_runs", 0)},
         "input_shapes_seen": sorted(merged["sets"].get("tag_shape", ())),
+        "runs_with_a_window_bound_between_inverted_own_dates": c.get("inverted_cut_runs", 0),
     }
